@@ -409,8 +409,20 @@ static bool dir_exists(const std::string &d) {
   return false;
 }
 
+// PATH_MAX / NAME_MAX of the simulated file system (as on Linux)
+static bool name_too_long(const char *path) {
+  size_t n = strlen(path);
+  if (n >= 4096) return true;
+  size_t comp = 0;
+  for (size_t i = 0; i < n; i++) {
+    comp = path[i] == '/' ? 0 : comp + 1;
+    if (comp > 255) return true;
+  }
+  return false;
+}
 bool path_writable(const std::string &p) {
   if (p == "/dev/stdout") return true;
+  if (name_too_long(p.c_str())) return false;
   for (SimFile &f : G.files)
     if (f.path == p) return f.kind == 0;
   return !p.empty() && dir_exists(dir_of(p));
@@ -1031,6 +1043,10 @@ extern "C" int __wrap_open(const char *path, int flags, ...) {
     errno = a->err ? a->err : EMFILE;
     return -1;
   }
+  if (name_too_long(path)) {
+    errno = ENAMETOOLONG;
+    return -1;
+  }
   if (G.w.fd_limit > 0) {
     int held = 0;
     for (const SimState::Fd &x : G.fds) held += x.open;
@@ -1435,6 +1451,10 @@ extern "C" FILE *__wrap_fopen(const char *path, const char *mode) {
   if (a && a->ans == ANS_FAIL) {
     note_fired(K_FOPEN);
     errno = a->err ? a->err : EACCES;
+    return nullptr;
+  }
+  if (name_too_long(path)) {
+    errno = ENAMETOOLONG;
     return nullptr;
   }
   bool wr = strchr(mode, 'w') != nullptr, ap = strchr(mode, 'a') != nullptr;
